@@ -15,7 +15,7 @@ import (
 func zzC04Opts() zzStateOpts {
 	o := zzStateOpts{maxPool: 2, maxBatches: 1, maxPerBatch: 2, zeroFees: true, concreteIds: true}
 	if vrt.Thorough() {
-		o = zzStateOpts{maxPool: 2, maxBatches: 2, maxPerBatch: 2, zeroFees: true}
+		o = zzStateOpts{maxPool: 2, maxBatches: 2, maxPerBatch: 1, zeroFees: true, concreteIds: true}
 	}
 	return o
 }
